@@ -199,9 +199,6 @@ package didnuts
 //@   prop C09
 //@   assume-benign
 //@   ensures isNilIface(result.2) ==> result.0 != nil
-//@ func resolver.IsDeactivated
-//@   trusted
-//@   pure heap
 
 // The document itself counts as its controller only if it declares no controller at all or lists
 // itself, and in both cases only if it has capability-invocation keys; every other controller is the
